@@ -85,7 +85,8 @@ def sym_params(n_grains, **over):
         c.assume(b.z3())
     d = default_params(
         stress_exponent=p, deformation_exponent=n, nucleation_efficiency=lam, gbm_mobility=M, gbs_threshold=chi,
-        number_of_grains=n_grains,
+        # never read by the update (the mineral's own n_grains counts): deliberately different from it
+        number_of_grains=n_grains + 1,
     )
     d.update(over)
     return d
